@@ -137,7 +137,8 @@ static void tsan_reexec(char **argv) {
 /* The ThreadSanitizer build judges ONLY the race oracle.  Its inputs are a subset of what the ASan build judges with every
  * other oracle, and behaviour after an out-of-range slice is not reproducible without ASan's redzones (heap reuse differs
  * between a long-lived worker and a fresh replay process), which would turn a genuine finding into a replay divergence. */
-#define JUDGE(ok, ...) vx_check(H_TSAN ? 1 : (ok), __VA_ARGS__)
+static int g_failed; static const char *g_vacuous;   /* per execution: an oracle failed / the vacuity guard wants to fire */
+#define JUDGE(ok, ...) do { int ok_ = H_TSAN ? 1 : (ok); if (!ok_) g_failed = 1; vx_check(ok_, __VA_ARGS__); } while (0)
 static void race_reset(void) { g_race = 0; g_race_desc[0] = 0; }
 /* A race report is handed to the oracle if its address lies in the kernel's OUTPUT object (the thing the slices partition).
  * Reports elsewhere are the by-product of an out-of-range slice or index (a write past the end of the output lands in a
@@ -177,7 +178,9 @@ static void race_check(const char *fn, const char *cl) {   /* internal buffers: 
 }
 
 /* vacuity guard: a kernel that never starts a second worker makes the thread-count dimension meaningless.  Falling back to the
- * sequential path for small inputs is a legitimate implementation choice, so the guard only fires where the rows are plentiful. */
+ * sequential path for small inputs is a legitimate implementation choice, so the guard only fires where the rows are plentiful,
+ * and only at the end of an execution in which every oracle passed (a kernel that starts too few workers AND leaves cells
+ * uncomputed is a violation to report, not a broken harness). */
 #define VACUOUS(th, n) ((th) > 1 && (n) >= 16 && (n) >= 4 * (th) && g_created < 2)
 static void harness_error(const char *what) { fprintf(stderr, "VX-HARNESS-ERROR: h_C13: %s\n", what); _exit(2); }
 
@@ -245,7 +248,7 @@ static void run_mtmv(int which, int n, int th, int c, int fam, dvector **out_fre
   mt(m, v, p); vx_transition(1);
   race_check_dv(fn, cl, p, NULL);
   if (g_nproc_calls == calls0) harness_error("GetNProcessor seam not reached by the MT_ product");
-  if (VACUOUS(th, n)) harness_error("the MT_ product ignored the processor count handed out by the GetNProcessor seam");
+  if (VACUOUS(th, n)) g_vacuous = "the MT_ product ignored the processor count handed out by the GetNProcessor seam";
   int skipped = 0, twice = 0, bad = 0; double worst = 0, wtol = 0;
   for (int i = 0; i < n; i++) {
     double tol = 64.0 * DEPS * (c + 2) * (double)bnd[i] + 1e-300, d = fabs(p->data[i] - (double)ref[i]);
@@ -302,7 +305,7 @@ static void run_dist(int metric, int n, int th, int c, int fam, int m2kind, matr
   g_created = 0; race_reset();
   CalculateDistance(m1, m2, d, (size_t)th, (enum cmethod)metric); vx_transition(1);
   race_check_mx(fn, cl, d, NULL);
-  if (VACUOUS(th, n)) harness_error("kernel ignored its nthreads argument: the thread-count dimension would be vacuous");
+  if (VACUOUS(th, n)) g_vacuous = "kernel ignored its nthreads argument: the thread-count dimension would be vacuous";
   KEY(key, "shape", fn, cl);
   int shape_ok = (int)d->row == r2 && (int)d->col == n;
   JUDGE(shape_ok, key, "%s (%d x %d) vs (%d x %d): result is %zu x %zu, expected %d x %d", fn, n, c, r2, c, d->row, d->col, r2, n);
@@ -374,7 +377,7 @@ static void run_cond(int metric, int n, int th, int c, int fam, dvector **out_fr
   g_created = 0; race_reset();
   CD_OF[metric](m, cd, (size_t)th); vx_transition(1);
   race_check_dv(fn, cl, cd, NULL);
-  if (VACUOUS(th, n)) harness_error("kernel ignored its nthreads argument: the thread-count dimension would be vacuous");
+  if (VACUOUS(th, n)) g_vacuous = "kernel ignored its nthreads argument: the thread-count dimension would be vacuous";
   KEY(key, "shape", fn, cl); int shape_ok = (long)cd->size == N;
   JUDGE(shape_ok, key, "%s on %d rows: %zu entries, expected %ld", fn, n, cd->size, N);
   if (shape_ok) {
@@ -415,7 +418,7 @@ static void run_labels(int n, int th, int c, int fam, uivector **out_free) {
   g_created = 0; race_reset();
   getLabels_(m, cen, lab, th); vx_transition(1);
   race_check_uv(fn, cl, lab, NULL);
-  if (VACUOUS(th, n)) harness_error("kernel ignored its nthreads argument: the thread-count dimension would be vacuous");
+  if (VACUOUS(th, n)) g_vacuous = "kernel ignored its nthreads argument: the thread-count dimension would be vacuous";
   int untouched = 0, notnear = 0;
   for (int i = 0; i < n; i++) {
     if (lab->data[i] == (size_t)-1) { untouched++; continue; }
@@ -554,11 +557,13 @@ static void body(void) {
   if (op == OP_DETECT) { run_detect(); return; }
   pick(op >= OP_KMEANS ? 1 : 0, &n, &th);
   int c = pick_cols(op <= OP_VM || op == OP_LABELS), fam = pick_fam();
+  g_failed = 0; g_vacuous = NULL;
   if (op <= OP_VM) run_mtmv(op, n, th, c, fam, NULL);
   else if (op <= OP_DIST3) run_dist(op - OP_DIST0, n, th, c, fam, vx_choose("m2", 2), NULL);
   else if (op <= OP_COND3) run_cond(op - OP_COND0, n, th, c, fam, NULL);
   else if (op == OP_LABELS) run_labels(n, th, c, fam, NULL);
   else run_algo(op - OP_KMEANS, n, th, c, fam);
+  if (g_vacuous && !g_failed) harness_error(g_vacuous);
 }
 
 int main(int argc, char **argv) {
